@@ -326,6 +326,9 @@ func (ex *Exec) load(st *State, p Val) Val {
 	v.Origin = p.Arr
 	v.OriginRef = p.T
 	ex.chanClassLoad(st, p.Arr, el, t)
+	if rf := rangeFact(el, t); rf != "true" {
+		st.assume(rf) // an integer variable holds a value of its type
+	}
 	if strings.HasPrefix(p.Arr, "global.") {
 		ex.globalFacts(st, p.T, t, el)
 	}
@@ -481,8 +484,22 @@ func (ex *Exec) attachProbes(st *State, fr *Frame, ob *Obligation) {
 }
 
 // safety obligations are generated only in functions marked nopanic
+var sweepClause = &Clause{Kind: "nopanic", Labels: []string{"*"}, Text: "zero-annotation no-panic sweep"}
+
 func (ex *Exec) safety(st *State, fr *Frame, instr ssa.Instruction, kind, what, goal string) {
 	sp := ex.topFrame.spec
+	if os.Getenv("GOATVC_SWEEP") != "" && (sp == nil || sp.NoPanic == nil) {
+		// diagnostic mode: implicit safety obligations in every function, contract or not
+		if goal == "true" {
+			return
+		}
+		name := fmt.Sprintf("%s#%s@%s", ex.curKey, kind, what)
+		if instr != nil {
+			name += fmt.Sprintf("#%d", ex.ordinalOf(fr, instr, kind))
+		}
+		ex.oblige(st, kind, name, sweepClause.Labels, goal, sweepClause, ex.posOf(instr))
+		return
+	}
 	if sp == nil || sp.NoPanic == nil {
 		return
 	}
